@@ -373,7 +373,7 @@ func parseNumber[D []byte | string](d D, neg, sepallowed bool) (Decimal, error) 
 			cansgn = false
 			eneg = true
 		case c == '_':
-			if !cansep {
+			if !sepallowed || !cansep {
 				return Decimal{}, parseNumberSyntaxError{}
 			}
 
